@@ -27,6 +27,15 @@ type IW interface {
 	Join(a, b, c, d string) int
 }
 
+// IU mixes an exported method with a non-ASCII initial with ASCII exported and unexported ones:
+// the method set is ordered "exported first, then by name", which is not plain byte order here.
+type IU interface {
+	Énumérer(a int) int
+	Zeta(a int) int
+	apply(a int) int
+	zap(a int) int
+}
+
 // Impl is a real implementation of all of them.
 type Impl struct{ K int }
 
@@ -39,6 +48,10 @@ func (i *Impl) Sum8(a, b, c, d, e, f, g, h int) int {
 	return a + b + c + d + e + f + g + h + i.K + 6
 }
 func (i *Impl) Join(a, b, c, d string) int { return len(a) + len(b) + len(c) + len(d) + i.K + 7 }
+func (i *Impl) Énumérer(a int) int         { return a + i.K + 11 }
+func (i *Impl) Zeta(a int) int             { return a + i.K + 12 }
+func (i *Impl) apply(a int) int            { return a + i.K + 13 }
+func (i *Impl) zap(a int) int              { return a + i.K + 14 }
 func (i *Impl) Aaa(a int) int              { return a + i.K + 8 }
 func (i *Impl) Get(a int) int              { return a + i.K + 9 }
 func (i *Impl) Zzz(a int) int              { return a + i.K + 10 }
@@ -131,8 +144,8 @@ var (
 	Z I5
 	W I1
 	V IW
+	U IU
 )
-
 
 //go:noinline
 func mkImpl(k int) *Impl { return &Impl{K: k} }
@@ -143,10 +156,12 @@ func SetInitial(realImpl bool) {
 		// fresh heap objects that nothing but the variables references: whatever holds "the value
 		// the variable held before" while it is mocked must keep them alive
 		X, Y, Z, W, V = mkImpl(1000), mkImpl(2000), mkImpl(3000), mkImpl(4000), mkImpl(5000)
+		U = mkImpl(6000)
 		L["L1"].set(mkImpl(8000))
 		L["L2"].set(mkImpl(9000))
 	} else {
 		X, Y, Z, W, V = nil, nil, nil, nil, nil
+		U = nil
 		L["L1"].set(nil)
 		L["L2"].set(nil)
 	}
@@ -184,6 +199,14 @@ func Call(v, m string, a int) int {
 		return Z.E(a)
 	case "W.A":
 		return W.A(a)
+	case "U.Énumérer":
+		return U.Énumérer(a)
+	case "U.Zeta":
+		return U.Zeta(a)
+	case "U.apply":
+		return U.apply(a)
+	case "U.zap":
+		return U.zap(a)
 	case "V.Sum8":
 		return V.Sum8(a, 2, 3, 4, 5, 6, 7, 8)
 	case "V.Join":
@@ -208,6 +231,8 @@ func IsNil(v string) bool {
 		return W == nil
 	case "V":
 		return V == nil
+	case "U":
+		return U == nil
 	}
 	panic("bad var")
 }
@@ -236,6 +261,8 @@ func Words(v string) [2]uintptr {
 		return *(*[2]uintptr)(unsafe.Pointer(&W))
 	case "V":
 		return *(*[2]uintptr)(unsafe.Pointer(&V))
+	case "U":
+		return *(*[2]uintptr)(unsafe.Pointer(&U))
 	}
 	panic("bad var")
 }
@@ -247,18 +274,19 @@ var Methods = map[string][]string{
 	"Z":  {"A", "B", "c", "D", "E"},
 	"W":  {"A"},
 	"V":  {"Sum8", "Join"},
+	"U":  {"Énumérer", "Zeta", "apply", "zap"},
 	"L1": {"Aaa", "Get"},
 	"L2": {"Get", "Zzz"},
 }
 
 // RealResult is what the real implementation returns.
 func RealResult(v, m string, a int) int {
-	k := map[string]int{"X": 1000, "Y": 2000, "Z": 3000, "W": 4000, "V": 5000, "X2": 7000, "L1": 8000, "L2": 9000}[v]
+	k := map[string]int{"X": 1000, "Y": 2000, "Z": 3000, "W": 4000, "V": 5000, "X2": 7000, "L1": 8000, "L2": 9000, "U": 6000}[v]
 	switch m {
 	case "Sum8":
 		return a + 2 + 3 + 4 + 5 + 6 + 7 + 8 + k + 6
 	case "Join":
 		return len(JoinFirst(a)) + 1 + 2 + 3 + k + 7
 	}
-	return a + k + map[string]int{"A": 1, "B": 2, "c": 3, "D": 4, "E": 5, "Aaa": 8, "Get": 9, "Zzz": 10}[m]
+	return a + k + map[string]int{"A": 1, "B": 2, "c": 3, "D": 4, "E": 5, "Aaa": 8, "Get": 9, "Zzz": 10, "Énumérer": 11, "Zeta": 12, "apply": 13, "zap": 14}[m]
 }
